@@ -75,16 +75,35 @@ pub fn enc_object(o: &Object, kind: i64, da: u8, data: &[u8], out: &mut Vec<i64>
 
 pub fn exec(c: &[i64]) -> Vec<i64> {
     if c[0] == 200 { return crate::c17::exec(&c[1..]); }
+    // 300 kind da sa id1 d1[8] id2 d2..: the SAME driver context sees frame 1, then frame 2; what is reported is frame 2's
+    let (first, c) = if c[0] == 300 && c.len() >= 13 {
+        let mut rest = c[1..4].to_vec(); rest.extend(&c[13..]);
+        (Some((c[4] as u32, c[5..13].iter().map(|x| *x as u8).collect::<Vec<u8>>())), rest)
+    } else { (None, c.to_vec()) };
+    let c = &c[..];
+    if c.len() < 4 { return vec![-2]; }
     let (kind, da, sa, id) = (c[0], c[1] as u8, c[2] as u8, c[3] as u32);
     let data: Vec<u8> = c[4..].iter().map(|x| *x as u8).collect();
     let r = std::panic::catch_unwind(|| {
         let unit = make(kind, da, sa)?;
         let mut ctx = NetDriverContext::default();
+        if let Some((id1, d1)) = &first {
+            let mut rx1 = Vec::new();
+            let _ = unit.try_recv(&mut ctx, &mk_frame(*id1, d1), &mut rx1);
+        }
         let frame = mk_frame(id, &data);
         let mut rx = Vec::new();
         let res = unit.try_recv(&mut ctx, &frame, &mut rx);
         let mut out = vec![err_code(&res), ctx.rx_count() as i64];
-        match ctx.rx_last_message() { None => out.push(0), Some(m) => { out.push(1); enc_object(&m.object, kind, da, &data, &mut out); } }
+        match ctx.rx_last_message() { None => out.push(0), Some(m) => {
+            out.push(1);
+            let mut a = Vec::new(); enc_object(&m.object, kind, da, &data, &mut a);
+            // in a history the last accepted object may stem from the first frame (the second one was not for this driver)
+            if let (Some((_, d1)), Some(0), Some(5)) = (&first, a.last().copied(), a.first().copied()) {
+                if res.is_ok() && rx.is_empty() { a.clear(); enc_object(&m.object, kind, da, d1, &mut a); }
+            }
+            out.extend(a);
+        } }
         out.push(rx.len() as i64);
         for o in &rx { enc_object(o, kind, da, &data, &mut out); }
         Some(out)
@@ -210,6 +229,35 @@ pub fn gen_mode(o: &Opts, mode: u32, sink: &mut dyn FnMut(Vec<i64>, String)) {
                     put!(vec![kind, 0x00, 0x27, id, tm, dd, ae, (raw & 0xff) as i64, (raw >> 8) as i64, 0xff, 0xf0 | nib, 0xff]);
                 }
             }
+        }
+        // histories of two frames on one driver context: what frame 2 means does not depend on frame 1.
+        // EEC1: every ordered pair of starter nibbles x rpm classes (0, idle-ish, running, absent)
+        for kind in [6i64, 7] {
+            let id = id_of(3, 61444, 0, 0x00) as i64;
+            let rpms = [0u32, 3200, 8000, 65535];
+            for n1 in 0..16i64 { for n2 in 0..16i64 { for r1 in rpms { for r2 in rpms {
+                if !full && kind == 7 && (n1 + n2) % 2 != 0 { continue; }
+                let mut c = vec![300, kind, 0x00, 0x27, id, 0xf0, 130, 140, (r1 & 0xff) as i64, (r1 >> 8) as i64, 0xff, 0xf0 | n1, 0xff];
+                c.extend([id, 0xf0, 130, 140, (r2 & 0xff) as i64, (r2 >> 8) as i64, 0xff, 0xf0 | n2, 0xff]);
+                put!(c);
+            } } } }
+        }
+        // every driver: random ordered pairs of frames from the unit itself over the groups anybody inspects
+        let npairs = if full { 60_000 } else { 6_000 };
+        for j in 0..npairs {
+            let kind = kinds[(j % 7) as usize];
+            let (da, sa) = cfg_for(kind, rng.below(6));
+            let mut c = vec![300, kind, da, sa];
+            for _ in 0..2 {
+                let pgn = match kind {
+                    1 | 2 | 3 if rng.chance(1, 2) => *rng.pick(&[65288u32, 65242, 64258, 45824, 45312]),
+                    4 if rng.chance(2, 3) => 65450, 5 if rng.chance(2, 3) => 65451, 6 | 7 if rng.chance(2, 3) => 61444,
+                    _ => *rng.pick(&PGNS) };
+                let ps = if (pgn >> 8) & 0xff < 240 { *rng.pick(&[da as u32, sa as u32, 0xff]) } else { 0 };
+                c.push(id_of(6, pgn, ps, da as u32) as i64);
+                c.extend(typical(pgn, &mut rng));
+            }
+            put!(c);
         }
         // hydraulic status: every (state, lock) byte pair
         for st in 0..=255i64 { for lk in 0..=255i64 {
